@@ -141,6 +141,13 @@ func (x *Run) intrinsic(fr *Frame, st *State, fn *ssa.Function, args []Val, site
 		return single(st, Val{T: sel(x.arr(st, x.chCapArr()), args[0].T), S: SInt, Ty: types.Typ[types.Int]}), true
 	case "Any":
 		return single(st, x.freshVal(st, "any", fn.Signature.Results().At(0).Type())), true
+	case "Nullable":
+		// Nullable(x): x, declared possibly nil - calling a method through it
+		// (interface) or dereferencing it (pointer) is an obligation
+		v := args[0]
+		v.MaybeNil = true
+		v.NilIface = v.S == SIface
+		return single(st, v), true
 	case "Sent":
 		// Sent(ch, v): a send of v on ch happened on this path
 		return single(st, Val{T: x.eventMatch(st, "send", args), S: SBool}), true
